@@ -1,10 +1,11 @@
 #!/bin/bash
-# mutcheck.sh <seeded-id> <prop> [<prop>...] : run checks against a scratch worktree with one seeded change applied
+# mutcheck.sh <seeded-id | path/to/patch.diff> <prop> [<prop>...] : run checks against a scratch worktree with one seeded change applied
 set -e
 id=$1; shift
 wt=$(mktemp -d /tmp/mutcheck-XXXXXX)
 git -C /repo worktree add -q --detach $wt/wt HEAD
-git -C $wt/wt apply /verif/seeded/$id/patch.diff
+if [ -f "$id" ]; then patch=$id; else patch=/verif/seeded/$id/patch.diff; fi
+git -C $wt/wt apply $patch
 for p in "$@"; do
   VERIF_REPO=$wt/wt VERIF_EVIDENCE_DIR=$wt/ev VERIF_REPLAY_DIR=$wt/rp /venv/bin/python /verif/harness/check.py $p --tier ${TIER:-quick} 2>&1 | grep -E "VIOLATION|failing input|no longer|MACHINERY|-> " | cut -c1-400 || true
 done
